@@ -21,6 +21,7 @@ import (
 type PF struct {
 	On    bool
 	Fired map[string]int64
+	Count map[string]int64 // firings per rule name (every probe rule retracts itself: exactly one)
 	kb    *ast.KnowledgeBase
 }
 
@@ -48,7 +49,7 @@ func c16MidRunRemoval(cr *CaseResult) {
 		return
 	}
 	for run := 1; run <= 2; run++ {
-		f := &PF{On: true, Fired: map[string]int64{}, kb: inst}
+		f := &PF{On: true, Fired: map[string]int64{}, Count: c16Counts(), kb: inst}
 		dc := ast.NewDataContext()
 		dc.Add("F", f)
 		e := engine.NewGruleEngine()
@@ -72,7 +73,7 @@ func c16MidRunRemoval(cr *CaseResult) {
 		cr.violate("NewKnowledgeBaseInstance fails after a removal on another instance: "+err.Error(), map[string]interface{}{"grl": text})
 		return
 	}
-	f := &PF{On: true, Fired: map[string]int64{}} // kb == nil: Drop is a no-op here
+	f := &PF{On: true, Fired: map[string]int64{}, Count: c16Counts()} // kb == nil: Drop is a no-op here
 	dc := ast.NewDataContext()
 	dc.Add("F", f)
 	e := engine.NewGruleEngine()
@@ -84,14 +85,18 @@ func c16MidRunRemoval(cr *CaseResult) {
 	cr.inc("mid_run_removal_scenarios")
 }
 
+func c16Counts() map[string]int64 {
+	return map[string]int64{"R1": 0, "R2": 0, "R3": 0, "Deleted_R1": 0}
+}
+
 type kbKey struct{ name, ver string }
 
 func c16RuleText(name string, id int64) string {
-	return fmt.Sprintf(`rule %s "v%d" salience %d { when F.On && F.Fired.Len() >= 0 then F.Fired["%s"] = %d; Retract("%s"); }`, name, id, id%7, name, id, name)
+	return fmt.Sprintf(`rule %s "v%d" salience %d { when F.On && F.Fired.Len() >= 0 then F.Count["%s"] = F.Count["%s"] + 1; F.Fired["%s"] = %d; Retract("%s"); }`, name, id, id%7, name, name, name, id, name)
 }
 
 func c16ProbeInst(inst *ast.KnowledgeBase) (string, error) {
-	f := &PF{On: true, Fired: map[string]int64{}}
+	f := &PF{On: true, Fired: map[string]int64{}, Count: c16Counts()}
 	dc := ast.NewDataContext()
 	if err := dc.Add("F", f); err != nil {
 		return "", err
@@ -117,6 +122,11 @@ func c16ProbeInst(inst *ast.KnowledgeBase) (string, error) {
 	}()
 	if err != nil {
 		return "", err
+	}
+	for n, cnt := range f.Count {
+		if cnt > 1 {
+			return "", fmt.Errorf("rule %s fired %d times in one Execute although its first firing retracts it", n, cnt)
+		}
 	}
 	var out, mn, fn []string
 	for n, id := range f.Fired {
